@@ -90,7 +90,18 @@ JOBSETS['depth'] = {
     'wall': {'quick': 1200, 'thorough': 3600},
 }
 
+OPKG = 'github.com/cloudwego/frugal/internal/opts'
+JOBSETS['legacy'] = {
+    'jobs': {t: [{'id': 'legacy/codec', 'entry': FPKG + '.VerifLegacy', 'reach': ['end'], 'tags': ['legacy']}] +
+                [{'id': 'legacy/env/len%d' % n, 'entry': OPKG + '.VerifParseEnv', 'reach': ['end'] + (['valid'] if n else []), 'cfg': {'sym_env_len': n, 'env': ({} if n else {'FRUGAL_MAX_INLINE_DEPTH': ''})}, 'tags': ['legacy'], 'no_tv': True}
+                 for n in ((0, 1, 2, 3) if t == 'quick' else (0, 1, 2, 3, 4, 5))]
+             for t in ('quick', 'thorough')},
+    'cfg': {'quick': {'timeout_s': 300}, 'thorough': {'timeout_s': 900}},
+    'wall': {'quick': 900, 'thorough': 3600},
+}
+
 PROPS = {
+    'C17': {'jobsets': ['legacy'], 'phases': [''], 'translator_validation': 2},
     'C15': {'jobsets': ['depth'], 'phases': ['decode'], 'translator_validation': 4},
     'C13': {'jobsets': ['invalid'], 'phases': [''], 'translator_validation': 4},
     'C07': {'jobsets': ['hist', 'dec2'], 'phases': ['pred', 'decode'], 'also_labels': r'^(C03|C09|C05|C06|C01)', 'job_filter': r'^(hist|dec2|decmsg)/'},
@@ -168,12 +179,32 @@ MANIFEST_TEXT.update({
             'ref': 'DESIGN.md s7 C14', 'note': _CODEC_NOTE, 'technique': 'SSA-level symbolic execution with address-level aliasing checks'},
 })
 
+MANIFEST_TEXT.update({
+    'C07': {'level': 'The decode under test (structured message, reference decoder as stateless oracle) is preceded by a predecessor chosen by the solver-explored menu: pools HAVOCKED to arbitrary contents '
+                     '(presence bitset: 1024 symbolic words; unknown-field index: arbitrary size and stale entries; bump allocator at frontier classes), a successful decode of another type sharing pooled objects and type nodes, '
+                     'a decode failing at every truncation point, size+encode by value, a full decode of the same type; plus decode/overwrite/decode histories and neighbour types registered before the type under test.',
+            'ref': 'DESIGN.md s7 C07', 'note': _CODEC_NOTE + ' Histories longer than two calls are covered only through the havocked-pool (one inductive step) form; sync.Pool is modelled as LIFO reuse.',
+            'technique': 'SSA-level symbolic execution + SMT (z3) from havocked pool states (one inductive step) and enumerated predecessors'},
+    'C13': {'level': 'For 58 definitions of the enumerated invalid classes (unsupported Go kinds, missing/contradicting/broken annotations, invalid keys and pointer forms, bad ids/requiredness/options, invalid two levels down, '
+                     'mutually recursive types with an invalid member) and 9 non-struct arguments, the real registration and entry-point code is executed by the engine in three orders of first use mixed with a valid type: '
+                     'EncodeObject/DecodeObject must return an error with n == 0 and untouched buffer, EncodedSize must end in an ordinary Go panic (runtime faults are distinguished), the same on every call, everything reaching '
+                     'the invalid definition rejected too, and the valid sibling must still round-trip a symbolic value.',
+            'ref': 'DESIGN.md s7 C13', 'note': _CODEC_NOTE + ' Registration outcomes depend on no symbolic input: for them the engine acts as an exact interpreter with fault detection (exhaustive over the enumerated classes, not solver-decided); the symbolic-text parser harness is not built.',
+            'technique': 'SSA-level execution of the real registration code with panic/fault classification + symbolic sibling round trip'},
+    'C15': {'level': '(1) Decode with a SYMBOLIC depth budget on messages nested k levels: zero budget refused before reading input, recursion depth (engine-measured frames) bounded by the budget, insufficient budget gives the depth-limit error, '
+                     'sufficient budget success. (2) Recursive type reached through struct / list / map value / map key / mixtures with concrete nesting depths up to 2000 (5000 thorough) and symbolic leaf: <= 48 levels accepted with the leaf intact, '
+                     '> 1023 levels depth-limit error, in between success or depth-limit error only, never a panic; the same nests in unknown-field position against the skipper limit of 64.',
+            'ref': 'DESIGN.md s7 C15', 'note': _CODEC_NOTE + ' The inductive reading (budget strictly decreases on every recursive call) is checked for budgets <= 40 and nesting <= 4 (8 thorough), not proved for all; depths beyond 5000 are not executed.',
+            'technique': 'SSA-level symbolic execution with symbolic depth budget + concrete deep-structure runs'},
+    'C17': {'level': 'opts.MaxInlineDepth/MaxInlineILSize hold arbitrary (symbolic) values and one legacy call with an arbitrary argument (setters, NoJIT, GetStats, Pretouch on valid/invalid/nil types with options, option constructors) is placed '
+                     'before / between / after EncodedSize, EncodeObject and DecodeObject of a symbolic value: sizes, bytes and decoded value equal the reference for all values; setters return their argument; Pretouch returns nil. '
+                     'FRUGAL_MAX_INLINE_DEPTH as a symbolic string of length 0..3 (5 thorough): every valid decimal above the minimum parses to its value without panic.',
+            'ref': 'DESIGN.md s7 C17', 'note': _CODEC_NOTE + ' strconv.ParseUint on symbolic text is a model (decimal digits; other bases excluded from the valid region); os.Getenv is modelled.',
+            'technique': 'SSA-level symbolic execution + SMT (z3), non-interference by differential against the reference'},
+})
+
 NOT_APPLICABLE = {
-    'C07': 'not built yet (planned: dirty pools / call histories)',
     'C08': 'not built yet (planned: bounded interleavings of the descriptor cache)',
     'C12': 'not built yet (planned: spellings + symbolic parser text)',
-    'C13': 'not built yet (planned: invalid definitions)',
-    'C15': 'not built yet (planned: depth induction)',
-    'C17': 'not built yet (planned: legacy controls)',
     'C18': 'Allocation behaviour is decided by the gc compiler\'s escape analysis/inlining and runtime internals that do not exist at the go/ssa level this technique encodes; measuring MemStats would be a different technique (DESIGN.md s7 C18).',
 }
